@@ -48,6 +48,7 @@ Fails(e) ==
     [] e.op = "iso_trace"     -> JIsoTrace(e)
     [] e.op = "unit_trace"    -> JUnitTrace(e)
     [] e.op = "path_trace"    -> JPathTrace(e)
+    [] e.op = "sched_replay"  -> JSchedReplay(e)
     [] e.op = "pure_call"     -> JPureCall(e)
     [] e.op = "same_elsewhere" -> JSameElsewhere(e)
     [] e.op = "check"         -> JCheck(e)
